@@ -29,7 +29,7 @@ func init() {
 			"resolution 0 (alias of 960), resolutions above 32767 (clamped) and more than 65535 tracks are outside the stated domain",
 			"messages are non-empty smf.Message values: channel messages, FF type VLQ payload metas in canonical form, F0/F7 sysex and escape messages",
 		},
-		Require: []string{"bank_reads", "dumps_among_notes", "histories", "smpte_files", "rs_elisions_by_writer", "delta_ge_2^28", "early_close", "add_after_close", "variadic_add", "unclosed_tracks", "files_with_more_than_65536_events", "tracks_added_again_after_more_adds", "end_of_track_inside_multi_message_add", "end_of_track_messages_with_data_added", "tracks_extended_or_closed_after_smf_add", "events_compared", "norunningstatus_files", "file_roundtrips", "read_modify_write_values", "concurrent_roundtrips", "vlq_width_combinations"},
+		Require: []string{"bank_reads", "dumps_among_notes", "histories", "smpte_files", "rs_elisions_by_writer", "delta_ge_2^28", "early_close", "add_after_close", "variadic_add", "unclosed_tracks", "files_with_more_than_65536_events", "tracks_added_again_after_more_adds", "end_of_track_inside_multi_message_add", "end_of_track_messages_with_data_added", "tracks_extended_or_closed_after_smf_add", "tracks_added_after_a_write", "events_compared", "norunningstatus_files", "file_roundtrips", "read_modify_write_values", "concurrent_roundtrips", "vlq_width_combinations"},
 		Run:     runC01,
 	})
 }
@@ -184,7 +184,15 @@ func buildHistory(r *mon.Rand, maxDelta uint32, allowBig bool) *apiValue {
 			}
 		}
 		nops := r.Intn(25)
-		var prev []byte
+		var prev, lastChan []byte
+		draw := func(big bool) []byte {
+			// the status of the last CHANNEL message is the one that repeats, also across a sysex, an escape or a meta in between
+			m := randomMsg(r, lastChan, big)
+			if m[0] < 0xF0 {
+				lastChan = m
+			}
+			return m
+		}
 		for k := 0; k < nops; k++ {
 			switch x := r.Intn(20); {
 			case x == 0 && k > nops/2: // close (possibly early)
@@ -202,7 +210,7 @@ func buildHistory(r *mon.Rand, maxDelta uint32, allowBig bool) *apiValue {
 				n := r.Range(2, 4)
 				var ms [][]byte
 				for j := 0; j < n; j++ {
-					prev = randomMsg(r, prev, false)
+					prev = draw(false)
 					ms = append(ms, prev)
 				}
 				if r.P(1, 12) {
@@ -237,7 +245,7 @@ func buildHistory(r *mon.Rand, maxDelta uint32, allowBig bool) *apiValue {
 				shAdd(d, ref.EOT)
 				a.log("track %d: Add(%d, EOT)", t, d)
 			default:
-				prev = randomMsg(r, prev, allowBig && k == 0)
+				prev = draw(allowBig && k == 0)
 				d := delta()
 				if closed {
 					a.afterClose++
@@ -277,7 +285,7 @@ func buildHistory(r *mon.Rand, maxDelta uint32, allowBig bool) *apiValue {
 			// it again as the next track: SMF.Add takes the track as it is at that moment, both entries are kept
 			sh = base
 			for k, n := 0, r.Range(1, 5); k < n; k++ {
-				prev = randomMsg(r, prev, false)
+				prev = draw(false)
 				d := delta()
 				tr.Add(d, prev)
 				shAdd(d, prev)
@@ -501,6 +509,36 @@ func runC01(c *mon.Ctx) {
 		c01Check(c, a, fmt.Sprintf("history %d", i))
 		if i < 2 {
 			c.Sample("history", a.desc)
+		}
+		// the value goes on living after it was written: one more track (closed or not), written and read again
+		if i%4 == 1 {
+			var tr smf.Track
+			var sh []ref.Ev
+			for k, n := 0, r.Intn(4); k < n; k++ {
+				m := randomMsg(r, nil, false)
+				for ref.IsEOT(m) {
+					m = randomMsg(r, nil, false)
+				}
+				d := gen.Delta(r)
+				tr.Add(d, m)
+				sh = append(sh, ref.Ev{Delta: d, Msg: append([]byte(nil), m...)})
+			}
+			if r.P(1, 3) {
+				d := gen.Delta(r)
+				tr.Close(d)
+				sh = append(sh, ref.Ev{Delta: d, Msg: ref.EOT})
+				a.log("after the write: one more track, %d messages, Close(%d), SMF.Add", len(sh)-1, d)
+			} else {
+				sh = append(sh, ref.Ev{Delta: 0, Msg: ref.EOT})
+				a.log("after the write: one more track, %d messages, not closed, SMF.Add", len(sh)-1)
+			}
+			a.s.Add(tr)
+			a.sh.Tracks = append(a.sh.Tracks, sh)
+			if len(a.sh.Tracks) > 1 && a.sh.Format == 0 {
+				a.sh.Format = 1
+			}
+			c01Check(c, a, fmt.Sprintf("history %d, one more track after the first write", i))
+			c.Count("tracks_added_after_a_write", 1)
 		}
 	})
 
